@@ -127,7 +127,7 @@ def _unquote_tla_string(s):
 
 def tlc(module, cfg=None, workdir=None, workers=8, timeout=900, simulate=None, depth=None,
         env=None, coverage=False, json_out=None, want_lines=False, deadlock=False,
-        xmx="8g", dfid=None, extra=None, depth_first=False, tool_seed=None):
+        xmx="4g", dfid=None, extra=None, depth_first=False, tool_seed=None):
     """Run TLC on spec/<module>.tla with spec/<cfg>.  Lines printed by
     PrintT(ToJson(..)) are decoded; if json_out is a path they are streamed
     there (one JSON document per line) instead of being kept in memory."""
